@@ -45,6 +45,11 @@ func init() {
 		}
 		return AggV{[]Value{PtrV{Obj: o}}}
 	}
+	// runtime.AddCleanup[T, S]: the cleanup never runs inside one bounded run;
+	// the result is the zero Cleanup{id uint64; ptr uintptr}.
+	more["runtime.AddCleanup"] = func(it *Interp, a []Value) Value {
+		return AggV{[]Value{it.S.Const(64, 0), it.S.Const(it.wordBits, 0)}}
+	}
 	for _, n := range []string{
 		"sync.runtime_registerPoolCleanup", "sync.runtime_notifyListCheck", "sync.throw", "sync.fatal",
 		"internal/sync.runtime_registerPoolCleanup", "os.runtime_args", "syscall.runtime_envs",
